@@ -65,6 +65,7 @@ type FuncContract struct {
 	Line      int
 	Timeout   int
 	Bounded   string // non-empty: this unit is a bounded check with the stated bound
+	Establishes []string
 	Opaque    []string
 }
 
@@ -84,6 +85,8 @@ type Lemma struct {
 	File   string
 	Line   int
 	Timeout int
+	Fact   bool   // justified by an init function's `establishes`, not by an SMT query
+	EstBy  string // function that establishes the fact
 }
 
 type LemmaParam struct {
@@ -114,15 +117,16 @@ type Contracts struct {
 	Imports []string // spec files (relative to /verif/spec)
 	Externs map[string]*FuncContract // assumed contracts of functions without verified bodies
 	Files   []string
+	Writers map[string][]string // global -> functions allowed to write it
 	Scan    []string // assume/trusted/extern occurrences for the evidence report
 }
 
 func newContracts() *Contracts {
 	return &Contracts{Funcs: map[string]*FuncContract{}, Lemmas: map[string]*Lemma{}, Macros: map[string]*Macro{},
-		Ghosts: map[string]*GhostVar{}, Externs: map[string]*FuncContract{}}
+		Ghosts: map[string]*GhostVar{}, Externs: map[string]*FuncContract{}, Writers: map[string][]string{}}
 }
 
-var kwRe = regexp.MustCompile(`^(import|define|ghost|func|extern|lemma|props|requires|ensures|modifies|nopanic|exact-conversions|trusted|inline|split|loop|assert|use|hyp|concl|timeout|bounded|opaque)\b`)
+var kwRe = regexp.MustCompile(`^(import|define|ghost|func|extern|lemma|fact|establishes|writers|props|requires|ensures|modifies|nopanic|exact-conversions|trusted|inline|split|loop|assert|use|hyp|concl|timeout|bounded|opaque)\b`)
 
 func parseExprSrc(src string) (ast.Expr, error) {
 	// ==> is written as implies(); allow `a ==> b` at top level as sugar, right-assoc
@@ -283,7 +287,21 @@ func (cs *Contracts) LoadContractFile(path string, pkgShort string) error {
 				}
 				cs.Funcs[cur.Key] = cur
 			}
-		case "lemma":
+		case "establishes":
+			if cur == nil {
+				return fmt.Errorf("%s:%d: establishes outside func", path, r.line)
+			}
+			for _, f := range strings.Fields(r.text) {
+				cur.Establishes = append(cur.Establishes, pkgShort+"."+f)
+			}
+		case "writers":
+			// writers GLOBAL: f1 f2
+			i := strings.Index(r.text, ":")
+			g := pkgShort + "." + strings.TrimSpace(r.text[:i])
+			for _, f := range strings.Fields(r.text[i+1:]) {
+				cs.Writers[g] = append(cs.Writers[g], normalizeFuncName(f, pkgShort))
+			}
+		case "lemma", "fact":
 			// lemma name(p type, q type)
 			lp := strings.Index(r.text, "(")
 			if lp < 0 {
@@ -291,7 +309,7 @@ func (cs *Contracts) LoadContractFile(path string, pkgShort string) error {
 			}
 			name := strings.TrimSpace(r.text[:lp])
 			ps := strings.TrimSuffix(strings.TrimSpace(r.text[lp+1:]), ")")
-			lm := &Lemma{Pkg: pkgShort, Name: name, File: path, Line: r.line}
+			lm := &Lemma{Pkg: pkgShort, Name: name, File: path, Line: r.line, Fact: r.kw == "fact"}
 			for _, p := range strings.Split(ps, ",") {
 				f := strings.Fields(p)
 				if len(f) == 2 {
